@@ -105,6 +105,8 @@ def emit_expr(o, e):
         return ITER[-1][0]
     if k == "lit":
         return (vsc.signed if e["s"] else vsc.unsigned)(e["v"], e["w"])
+    if k == "enumlit":
+        return getattr(S.enum_type(e["enums"]), "m%d" % e["m"])
     if k == "bin":
         l = emit_expr(o, e["l"])
         r = emit_expr(o, e["r"])
